@@ -161,6 +161,41 @@ def check_sched(ctx, c, seed, ops, data, r, dis):
                           sig=dict(kind="sched", clause="kick-uses-record", model=md))
             ok = False
             break
+    # oracle 3 (family st3drv, seed C19-J): the amplitude the apply really used, recovered from its offsets.  The kick is affine in
+    # the relative amplitude - offsets(phase, a) = offs0 + a (offs1 - offs0) with offs1/offs0 the STATIC map's kick at the record's
+    # phase with amplitude 1 / 0 - so a_used = (A - offs0)/(offs1 - offs0) at the cell where offs1 - offs0 is largest; it must be
+    # the recorded amplitude (a clamp, a saturation, a sign convention applied to one of the two sites shows for the records it
+    # touches: negative, near-zero, large).  Tolerance: each of the three offsets carries <= 8 roundings on terms bounded by
+    # |a| T1 + T0 (T1 = |offs1 - offs0|, T0 = |offs0|): 64 * 2^-24 * (|a| + 1 + T0/T1).
+    r1, r0 = r.get("ref1", []), r.get("ref0", [])
+    if ok and len(r1) >= na and len(r0) >= na:
+        for j in range(na):
+            try:
+                o1 = [dc.q_of(t) for t in r1[j]]
+                o0 = [dc.q_of(t) for t in r0[j]]
+                oa = [dc.q_of(t) for t in alines[j]]
+                arec = dc.q_of(q0[j][1])
+            except ValueError:
+                continue
+            if not o1 or len(o1) != len(oa) or len(o0) != len(oa):
+                continue
+            x = max(range(len(o1)), key=lambda i: abs(o1[i] - o0[i]))
+            T1, T0 = abs(o1[x] - o0[x]), abs(o0[x])
+            if T1 == 0:
+                continue
+            aused = (oa[x] - o0[x]) / (o1[x] - o0[x])
+            tol = 64 * EPS * (abs(arec) + 1 + T0 / T1)
+            cls = "negative" if arec < 0 else ("near-zero" if arec < Fraction(1, 10) else ("large" if arec > 2 else "ordinary"))
+            ctx.count("sched:amplitude-%s" % cls)
+            if abs(aused - arec) > tol:
+                ctx.violation("impl-oracle", "apply %d kicked with relative amplitude %.6g but the record of step %d says %.6g (amplitude recovered "
+                              "from the offsets used: static kick at the recorded phase with amplitude 0 and 1 as the two reference points)"
+                              % (j, float(aused), j, float(arec)), case=case,
+                              observed=dict(step=j, cell=x, offset_used=alines[j][x], amplitude_used=float(aused)),
+                              expected=dict(record=q0[j], offset_amplitude0=r0[j][x], offset_amplitude1=r1[j][x], tol=float(tol)),
+                              sig=dict(kind="sched", clause="amplitude-used-is-recorded", model=md, amplitude=cls))
+                ok = False
+                break
     # oracle 2: flushed chunks + pending = first na records, the rest still queued
     rec = [p for fl in flines for p in dc.pairs(fl)] + dc.pairs(dc.toks(r, "pending"))
     left = dc.pairs(dc.toks(r, "left"))
@@ -208,6 +243,12 @@ def stage_sched(ctx, dis, count):
         c = dc.gen_rf(rng, "s%d" % i, lin=(i % 2 == 0), zero=False, small=True)
         c.steps = rng.randint(1, 14)
         seed = 0 if i % 7 == 6 else rng.randint(1, 2 ** 31 - 1)
+        if i % 4 == 1:
+            # strong amplitude noise: the per-step sigma is amplspread/sqrt(revolutionpart); 0.3 .. 2 draws 1 + noise below zero,
+            # next to zero and above 2 within a dozen steps (legal, if unusual: main() only refuses negative spreads)
+            c.amplspread = f32(rng.choice([0.3, 0.5, 0.7, 1.0, 2.0]) * math.sqrt(c.revpart))
+            c.steps = rng.randint(6, 14)
+            ctx.count("sched:strong-amplitude-noise")
         cases.append((c, seed, gen_ops(rng, c.steps), dc.gen_data(rng, c)))
     run_sched(ctx, cases, dis)
     ctx.sample(dict(kind="sched", ops=cases[0][2], steps=cases[0][0].steps, model=model_name(cases[0][0])))
@@ -336,6 +377,10 @@ def stage_calckick(ctx, dis, count):
         c = dc.gen_rf(rng, "k%d" % i, lin=(i % 2 == 0), zero=True, small=ctx.quick())
         phase = f32(rng.uniform(-0.1, 0.1) + (0 if c.lin else math.asin(c.V0 / c.V_RF)))
         ampl = f32(1 + rng.uniform(-0.05, 0.05)) if rng.random() < 0.8 else 1.0
+        if i % 5 >= 3:
+            # the amplitudes strong noise produces: negative, zero, next to zero, far above one
+            ampl = f32(rng.choice([rng.uniform(-1.5, -0.01), 0.0, -0.0, 1e-30, -1e-30, rng.uniform(-1e-3, 1e-3), rng.uniform(1.5, 4.0)]))
+            ctx.count("calckick:amplitude-%s" % ("negative" if ampl < 0 else ("near-zero" if ampl < 0.1 else "large")))
         cases.append((c, phase, ampl))
     run_calckick(ctx, cases, dis)
     ctx.sample(dict(kind="calckick", model=model_name(cases[0][0]), n=cases[0][0].n, phase=cases[0][1], ampl=cases[0][2]))
@@ -720,6 +765,16 @@ def stage_genkick(ctx, dis, count):
     construction and the modulated call `_calcKick(phase, ampl)` DynamicRFKickMap::apply makes (lib/rf_cases.py)"""
     import rf_cases as rfc
     offs = rfc.gen_offs_cases(ctx, count, prefix="k19")
+    rng = ctx.rng
+    for i, s in enumerate(offs):
+        # (family st3drv) the modulated call with the amplitudes strong noise produces; every second case is a modulated call here
+        if s.calc is None and i % 2 == 0:
+            s.calc = (f32(rng.uniform(-0.05, 0.05)), 1.0)
+        if s.calc is not None and i % 4 != 1:
+            a = f32(rng.choice([rng.uniform(-1.5, -0.01), rng.uniform(-1.5, -0.01), 0.0, 1e-30, -1e-30, rng.uniform(-1e-3, 1e-3),
+                                rng.uniform(1.5, 4.0)]))
+            s.calc = (s.calc[0], a)
+            ctx.count("genkick:amplitude-%s" % ("negative" if a < 0 else ("near-zero" if a < 0.1 else "large")))
     impl, model = rfc.run_offs(ctx, offs)
     for s in offs:
         d = rfc.compare_offs(s, impl[s.cid], model[s.cid])
